@@ -1,28 +1,65 @@
+use std::io::Read;
 use xsim::engine::*;
-use xsim::corpus;
+use xsim::job::JobSpec;
+
+fn usage() -> ! {
+    eprintln!("usage: xsim check <property> <quick|thorough> | replay <file> | worker | locate <index> | try <file.xr> [func]");
+    std::process::exit(2)
+}
 
 fn main() {
-    install_panic_hook();
     let args: Vec<String> = std::env::args().collect();
-    if args.get(1).map(|s| s.as_str()) == Some("probe") {
-        let scripts = corpus::load_all();
-        let mut n = 0;
-        for s in &scripts {
-            if s.expects_compile_error() || s.expects_violation() { continue; }
-            let mut sc = Scenario::standard(&s.text, Limits::calibration());
-            sc.env.record = true;
-            if s.allowed("regex") { sc.perms[4] = Some(true); }
-            if s.allowed("sleep") { sc.perms[5] = Some(true); }
-            if let Some(now) = s.now() { sc.env.unix_base = now; sc.env.unix_step = 0.0; }
-            let t0 = std::time::Instant::now();
-            match run_scenario(&sc) {
-                Err(e) => println!("{} COMPILE {:?}", s.id, e),
-                Ok(r) => {
-                    n += 1;
-                    println!("{} {:?} ev={} allocs={} calls={} final={} outst={} problems={:?} {:?}us", s.id, r.main_outcome().class(), r.events, r.counters.alloc_ok, r.counters.call_enters, r.final_accounted, r.final_outstanding, r.problems, t0.elapsed().as_micros());
+    match args.get(1).map(|s| s.as_str()) {
+        Some("worker") => xsim::sup::worker_main(),
+        Some("check") => {
+            install_panic_hook();
+            let prop = args.get(2).unwrap_or_else(|| usage());
+            let tier = args.get(3).map(|s| s.as_str()).unwrap_or("quick");
+            let tier = std::env::var("VERIF_TIER").ok().filter(|t| t == "quick" || t == "thorough").unwrap_or(tier.to_string());
+            match xsim::plans::plan(prop, &tier) {
+                Some(p) => std::process::exit(xsim::report::execute(p)),
+                None => {
+                    eprintln!("harness error: no check for property {prop}");
+                    std::process::exit(2)
                 }
             }
         }
-        println!("ran {n}");
+        Some("replay") => {
+            let path = args.get(2).unwrap_or_else(|| usage());
+            std::process::exit(xsim::report::replay(path))
+        }
+        Some("locate") => {
+            install_panic_hook();
+            let idx: usize = args.get(2).and_then(|s| s.parse().ok()).unwrap_or_else(|| usage());
+            let mut s = String::new();
+            std::io::stdin().read_to_string(&mut s).unwrap();
+            let spec: JobSpec = serde_json::from_str(&s).unwrap_or_else(|_| usage());
+            let h = std::thread::Builder::new().stack_size(1 << 30).spawn(move || xsim::job::locate(&spec, idx)).unwrap();
+            match h.join().ok().flatten() {
+                Some(sc) => println!("{}", serde_json::to_string(&sc).unwrap()),
+                None => std::process::exit(3),
+            }
+        }
+        Some("try") => {
+            install_panic_hook();
+            let path = args.get(2).unwrap_or_else(|| usage());
+            let text = std::fs::read_to_string(path).expect("read program");
+            let mut sc = Scenario::standard(&text, Limits::calibration());
+            if let Some(f) = args.get(3) {
+                sc.ops[1] = HostOp::Run { slot: 0, func: f.clone() };
+            }
+            sc.perms = [Some(true); 6];
+            match run_scenario(&sc) {
+                Err(e) => println!("COMPILE: {e:?}"),
+                Ok(r) => {
+                    for (i, o) in r.ops.iter().enumerate() {
+                        println!("op{i}: {:?} accounted={} calls={}", o.outcome, o.accounted, o.ud_calls);
+                    }
+                    println!("out={:?}", String::from_utf8_lossy(&r.out));
+                    println!("problems={:?} final={} events={} enters={} peak={}", r.problems, r.final_accounted, r.events, r.counters.call_enters, r.model_peak);
+                }
+            }
+        }
+        _ => usage(),
     }
 }
